@@ -10,6 +10,15 @@ BASELINE_OFF = ("cd /repo && env -u PYOPENAPI_GEN_VERIF /venv/bin/python -m pyte
 
 # id -> (category, technique, level text, level note, design ref)
 CHECKS = {
+    "C08": ("exploration", "runtime monitoring: shadow tracker + rest-state/final-state assertions hooked on the real cycle tracker, sys.monitoring RAISE/LINE observers",
+            "Wrappers installed from the harness around unified_enter_schema/unified_exit_schema, extractor._parse_schema and loader.build_schemas "
+            "observe every enter/exit event of the real parser while it loads all 2-node schema multigraphs (8 edge kinds, self-pairs, both orders, "
+            "naming schemes), deep chains/nestings beyond the limit with later re-references, under PYOPENAPI_MAX_DEPTH in {1,2,5,10,150} "
+            "(fresh processes per setting); thorough adds all 3-node graphs with <=3 edges, random larger graphs and the bundled corpus. "
+            "Asserts balance at every event, rest state after each top-level schema, terminal states and presence of declared names, "
+            "no CONTINUE beyond the limit, no RecursionError originating in the generator, step budget. Held on what was observed.",
+            "OpenAPI validator stubbed for speed except on a sample; limits above 150 not explored; evidence lists which return sites of _parse_schema were reached.",
+            "DESIGN.md §4 C08"),
     "C17": ("exploration", "runtime monitoring: wire capture under the real HttpxTransport + independent header/auth merge model",
             "Every ordered selection of 0-3 of the 7 bundled auth plugin configurations x 6 header-overlap patterns x caller params/cookies/body presence is sent through the real HttpxTransport into an httpx.MockTransport; the captured request is compared with a case-insensitive merge model (defaults < per-request < plugins in order), API key location/name, and pass-through of caller params, cookies and body. Exhaustive over that finite configuration space; values/names are fixed representatives.",
             "Trusts httpx.MockTransport as the wire; header names/values are representatives, not all strings.",
